@@ -733,6 +733,125 @@ func hostile(r *ev.Run, srv *dohmem.Server) {
 		r.Eval("owner-label-with-dot", "hostile -> not used")
 		srv.Zone = z.answer
 	}
+	// names that merely END in "localhost" or start with it are ordinary names: they are looked up, not answered from the
+	// loopback shortcut; and the lookups of one name never answer another name that merely shares a prefix with it ("c.example"
+	// and "c.exampleAAA": a cache keyed by name+type glued together confuses (c.exampleAAA, A) with (c.example, AAAA))
+	{
+		srv.Reset()
+		addrOf := map[string]byte{"notlocalhost": 11, "mylocalhost": 12, "localhost.example": 13, "xlocalhost.example": 14, "c.example": 21, "c.exampleAAA": 22, "c.exampleA": 23, "c.exampleAAAA": 24, "c.exampleHTTPS": 25}
+		srv.Zone = func(name string, t uint16) dohmem.Answer {
+			base := name
+			if i := strings.Index(name, "._https."); i >= 0 {
+				base = name[i+8:]
+			}
+			b, ok := addrOf[base]
+			switch {
+			case !ok:
+				return dohmem.Answer{}
+			case t == 1:
+				return dohmem.Answer{Records: []dnsref.RR{{Name: name, Type: 1, Class: 1, TTL: 60, Fields: []dnsref.Field{{Raw: []byte{10, 0, 0, b}}}}}}
+			case t == 28:
+				return dohmem.Answer{Records: []dnsref.RR{{Name: name, Type: 28, Class: 1, TTL: 60, Fields: []dnsref.Field{{Raw: append(make([]byte, 15), b)}}}}}
+			}
+			return dohmem.Answer{}
+		}
+		for _, in := range []string{"notlocalhost", "mylocalhost:8443", "https://mylocalhost:8443/x", "localhost.example", "xlocalhost.example:443"} {
+			srv.Reset()
+			res, _ := ech.NewResolver("https://doh.test/dns-query")
+			got, err := res.Resolve(context.Background(), in)
+			oc := "name containing localhost -> looked up"
+			if err != nil || len(srv.Queries()) == 0 || strings.Contains(ipsKey(got.Address), "127.0.0.1") || len(got.Address) != 2 {
+				oc = "name containing localhost -> NOT looked up"
+				r.Violation("localhost-shortcut-taken-for-another-name", fmt.Sprintf("Resolve(%q) = %s, %v with %d queries: the name is not \"localhost\", its zone data is %d.x", in, resultKey(got), err, len(srv.Queries()), addrOf["notlocalhost"]), in)
+			}
+			r.Eval("localhost-like:"+in, oc)
+		}
+		colliding := []string{"c.example", "c.exampleAAA", "c.exampleA", "c.exampleAAAA", "c.exampleHTTPS"}
+		for _, first := range colliding {
+			for _, second := range colliding {
+				if first == second {
+					continue
+				}
+				shared, _ := ech.NewResolver("https://doh.test/dns-query")
+				fresh, _ := ech.NewResolver("https://doh.test/dns-query")
+				shared.Resolve(context.Background(), first)
+				got, err1 := shared.Resolve(context.Background(), second)
+				want, err2 := fresh.Resolve(context.Background(), second)
+				oc := "lookup after a look-alike name -> own answer"
+				if (err1 == nil) != (err2 == nil) || resultKey(got) != resultKey(want) {
+					oc = "lookup after a look-alike name -> ANOTHER NAME'S ANSWER"
+					r.Violation("cache-confuses-names", fmt.Sprintf("Resolve(%q) after Resolve(%q) on one resolver = %s, %v; on a fresh resolver %s, %v", second, first, resultKey(got), err1, resultKey(want), err2), []string{first, second})
+				}
+				r.Eval("look-alike:"+first+">"+second, oc)
+			}
+		}
+		// an answer that is one long CNAME chain in order (n links, then the address): however long, consumed without a panic
+		for n := 1; n <= 40; n++ {
+			srv.Zone = func(name string, t uint16) dohmem.Answer {
+				if t != 1 && t != 28 {
+					return dohmem.Answer{}
+				}
+				var rrs []dnsref.RR
+				cur := name
+				for k := 0; k < n; k++ {
+					next := fmt.Sprintf("link%d.chain.example", k)
+					rrs = append(rrs, dnsref.RR{Name: cur, Type: 5, Class: 1, TTL: 60, Fields: []dnsref.Field{dnsref.N(next)}})
+					cur = next
+				}
+				raw := []byte{10, 9, 8, 7}
+				if t == 28 {
+					raw = append(make([]byte, 15), 7)
+				}
+				return dohmem.Answer{Records: append(rrs, dnsref.RR{Name: cur, Type: t, Class: 1, TTL: 60, Fields: []dnsref.Field{{Raw: raw}}})}
+			}
+			res, _ := ech.NewResolver("https://doh.test/dns-query")
+			panicked := any(nil)
+			func() {
+				defer func() { panicked = recover() }()
+				res.Resolve(context.Background(), "start.chain.example")
+			}()
+			oc := "in-answer CNAME chain -> consumed"
+			if panicked != nil {
+				oc = "panic"
+				r.Violation("panic:in-answer-cname-chain", fmt.Sprintf("Resolve panicked on an answer that is a chain of %d CNAMEs in order: %v", n, panicked), n)
+			}
+			r.Eval(fmt.Sprint("cname-chain:", n), oc)
+		}
+		srv.Zone = z.answer
+	}
+	// a service-mode record whose TargetName is spelled with upper-case letters: the target's addresses end up with the record
+	// (its ECH list goes with the target's address, not nowhere)
+	{
+		srv.Reset()
+		srv.Zone = func(name string, t uint16) dohmem.Answer {
+			switch {
+			case name == "mixed.example" && t == 65:
+				return dohmem.Answer{Records: []dnsref.RR{{Name: name, Type: 65, Class: 1, TTL: 60, Fields: dnsref.SVCB(1, "SVC.Mixed.Example", []dnsref.Param{dnsref.ParamECH([]byte{0xec, 0x77})})}}}
+			case strings.EqualFold(name, "svc.mixed.example") && t == 1:
+				return dohmem.Answer{Records: []dnsref.RR{{Name: name, Type: 1, Class: 1, TTL: 60, Fields: []dnsref.Field{{Raw: []byte{10, 4, 4, 4}}}}}}
+			case name == "mixed.example" && t == 1:
+				return dohmem.Answer{Records: []dnsref.RR{{Name: name, Type: 1, Class: 1, TTL: 60, Fields: []dnsref.Field{{Raw: []byte{10, 3, 3, 3}}}}}}
+			}
+			return dohmem.Answer{}
+		}
+		res, _ := ech.NewResolver("https://doh.test/dns-query")
+		got, err := res.Resolve(context.Background(), "mixed.example")
+		var first string
+		var firstECH []byte
+		if err == nil {
+			for t := range got.Targets("tcp") {
+				first, firstECH = t.Address.String(), t.ECH
+				break
+			}
+		}
+		oc := "mixed-case target name -> its addresses go with its record"
+		if err != nil || first != "10.4.4.4:443" || len(firstECH) == 0 {
+			oc = "mixed-case target name -> record without addresses"
+			r.Violation("target-addresses-lost:mixed-case-target", fmt.Sprintf("a record 1 SVC.Mixed.Example ech=...: first dial target %q with an ECH list of %d octets (err %v); the target's address is 10.4.4.4, the origin's 10.3.3.3: %s", first, len(firstECH), err, resultKey(got)), "SVC.Mixed.Example")
+		}
+		r.Eval("mixed-case-target", oc)
+		srv.Zone = z.answer
+	}
 	// a response that answers ANOTHER question than the one asked (its question section names other.example, its records are
 	// other.example's): nothing of it belongs to the name asked; and a record whose owner has the asked name as a label-wise
 	// PREFIX, followed by a label that contains a dot (o.example."x.y"): not the asked name either, and no reason to panic
